@@ -344,7 +344,7 @@ func ArrReduce(a []Val, f Reducer, init *Val) Val {
 // All index arithmetic below is in UTF-16 code units like JavaScript; the harness asserts
 // exact results only on ASCII receivers, where code units, code points and bytes coincide.
 
-func units(s string) []uint16    { return utf16.Encode([]rune(s)) }
+func units(s string) []uint16     { return utf16.Encode([]rune(s)) }
 func fromUnits(u []uint16) string { return string(utf16.Decode(u)) }
 
 func StrLength(s string) int { return len(units(s)) }
